@@ -59,7 +59,11 @@ def check_model(case):
         except sut.Watchdog:
             raise
         except Exception as ex:
-            # a loud refusal at compile time is outside the asserted contract (DESIGN C08 "Not asserted")
+            # a loud refusal at compile time is outside the asserted contract (DESIGN C08 "Not asserted"); an AttributeError,
+            # TypeError, KeyError ... is not a refusal but the compiler falling over
+            if isinstance(ex, (AttributeError, TypeError, KeyError, IndexError, NameError, RecursionError, ArithmeticError)):
+                return R([('compile-raised|%s' % type(ex).__name__, 'compile(%s, %s) raised %r' % (in_ids, out_ids, ex))], nt=True,
+                         labels=['compile-raised:%s' % type(ex).__name__])
             return R(labels=['compile-refused:%s' % type(ex).__name__])
         fresh = O.build(spec, path, d + '_f') if path == 'file' else O.build(spec, path)
         base = W.evaluate(spec)
@@ -345,7 +349,7 @@ def check_case(case):
 
 @st.composite
 def _model_cases(draw, tier):
-    spec = draw(G.specs(tier, max_books=2, wholecols=False, name_rate=2, alias_rate=3))
+    spec = draw(G.specs(tier, max_books=2, wholecols=False, name_rate=2, alias_rate=3, fname_rate=5))
     path = draw(st.sampled_from(['dict', 'dict', 'file']))
     ins = draw(O.overrides(spec, max_n=3, values=st.just(0.0), kinds=('cell', 'formula', 'name', 'name', 'rect', 'rect'), min_n=1))
     forms = [c for c in spec['cells'] if 'f' in c and 'arr' not in c]
